@@ -72,6 +72,11 @@ func (x *Exec) evalCall(st *State, e *ast.CallExpr) []*Value {
 			}
 		}
 	}
+	if nt, ok := x.eng.info.TypeOf(e.Fun).(*types.Named); ok && nt.Obj().Pkg() != nil && nt.Obj().Pkg().Path() == "context" && nt.Obj().Name() == "CancelFunc" {
+		// cancelling a context has no effect on the state modelled here
+		x.note("context-cancel")
+		return nil
+	}
 	x.note("dynamic-call:" + x.eng.srcText(e.Fun))
 	x.havocHeap(st, "dynamic call", nil)
 	return x.freshResults(st, sig, "dyn")
